@@ -47,6 +47,18 @@ def gen_modules(tier):
                     text = 'M DEFINITIONS AUTOMATIC TAGS ::= BEGIN\n' + cls + rowdefs + oset + frame + 'END\n'
                     label = '%s/%s/%s/%s' % ('+'.join(rows), idkind, pos, 'ext' if ext else 'closed')
                     out.append((label, text, dict(rows=list(zip(rows, ids)), idkind=idkind, pos=pos, ext=ext)))
+    # identifier values at the one/two-octet boundaries of the emitted constants, also under -fwide-types (the row constants are
+    # then INTEGER_t initialisers written octet by octet by the compiler)
+    for rows in ([('RowInt', 'RowSeq'), ('RowBool', 'RowStr')] if tier == 'quick' else [c for c in combos if len(c) == 2]):
+        for ids in ((127, 128), (200, 255), (256, 32767), (1, 129)):
+            for opts in ((), ('-fwide-types',)):
+                cls = 'CLS ::= CLASS { &id INTEGER UNIQUE, &Type } WITH SYNTAX { &Type IDENTIFIED BY &id }\n'
+                rowdefs = ''.join('%s ::= %s\n' % (r, ROWS[r][1]) for r in rows)
+                objs = ' | '.join('{ %s IDENTIFIED BY %d }' % (r, v) for r, v in zip(rows, ids))
+                text = ('M DEFINITIONS AUTOMATIC TAGS ::= BEGIN\n' + cls + rowdefs + 'ObjSet CLS ::= { %s }\n' % objs +
+                        'Frame ::= SEQUENCE { id CLS.&id ({ObjSet}), val CLS.&Type ({ObjSet}{@id}) }\nEND\n')
+                label = '%s/INTEGER/mandatory/closed/ids%d_%d%s' % ('+'.join(rows), ids[0], ids[1], '/wide' if opts else '')
+                out.append((label, text, dict(rows=list(zip(rows, ids)), idkind='INTEGER', pos='mandatory', ext=False, opts=opts)))
     return out
 
 
@@ -79,7 +91,7 @@ def run(args):
         i, (label, text, info) = i_item
         wdir = os.path.join(work, 'm%d' % i)
         try:
-            g = build.gen_types(text, ['Frame'] + [r for r, _ in info['rows']], wdir)
+            g = build.gen_types(text, ['Frame'] + [r for r, _ in info['rows']], wdir, opts=tuple(info.get('opts', ())))
             exe = build.link(os.path.join(wdir, 'drv'), build.drv_objects(corpus.DRV), g)
             shutil.rmtree(os.path.join(wdir, 'gen'), ignore_errors=True)
             return exe, None
